@@ -400,3 +400,107 @@ Proof.
   - apply (build_pages_first_last (s_frame s) (s_body s) (choose_strategy (s_body s)) r Hs i p H).
   - apply (build_pages_first_last (s_frame s) (s_body s) (choose_strategy (s_body s)) r Hs i p H).
 Qed.
+
+(* ---- C02 capstone: on every page of a section the body is its row slice, interleaved with headings ---- *)
+Definition bounds_ok (n : nat) (bounds : list (nat * list (str * val))) : Prop :=
+  increasing (0 :: map fst bounds) /\ Forall (fun b => fst b <= n) bounds.
+
+Lemma increasing_cons0 l : Forall (fun x => 1 <= x) l -> increasing l -> increasing (0 :: l).
+Proof.
+  destruct l as [|a l]; intros H1 H2; [exact I|]. cbn [increasing]. inversion H1; subst. split; [lia|exact H2].
+Qed.
+
+Lemma boundaries_ok f keys start len : bounds_ok len (boundaries f keys start len).
+Proof.
+  unfold bounds_ok. destruct (boundaries_inside f keys start len) as [H|H].
+  - split.
+    + apply increasing_cons0; [|apply boundaries_increasing].
+      apply Forall_map. eapply Forall_impl; [|exact H]. intros b Hb. cbn in Hb. lia.
+    + eapply Forall_impl; [|exact H]. intros b Hb. cbn in Hb. lia.
+  - rewrite H. split; [exact I|constructor].
+Qed.
+
+Lemma build_pages_bounds f b st pages :
+  Forall (fun p => bounds_ok (pc_len p) (pc_bounds p)) (build_pages f b st pages).
+Proof.
+  unfold build_pages. generalize (Z.of_nat (length (unique_sorted pages))) as total. intro total.
+  induction (unique_sorted pages) as [|p u IH]; [constructor|].
+  cbn [flat_map]. apply Forall_app. split; [|exact IH].
+  destruct (range_of p pages 0 None) as [[lo hi]|]; [|constructor].
+  constructor; [|constructor]. cbn [pc_len pc_bounds].
+  destruct st; try (split; [exact I|constructor]).
+  all: destruct (match b_page_by b with Some k => k | None => [] end); [split; [exact I|constructor]|apply boundaries_ok].
+Qed.
+
+Lemma set_slice_starts_bounds pages c :
+  Forall (fun p => bounds_ok (pc_len p) (pc_bounds p)) pages ->
+  Forall (fun p => bounds_ok (pc_len p) (pc_bounds p)) (set_slice_starts pages c).
+Proof.
+  intro H. revert c; induction H as [|p pages Hp _ IH]; intro c; [constructor|].
+  cbn [set_slice_starts]. constructor; [exact Hp|apply IH].
+Qed.
+
+Lemma set_slice_starts_fit pages c total :
+  c + sum_lens pages <= total ->
+  Forall (fun p => pc_slice_start p + pc_len p <= total) (set_slice_starts pages c).
+Proof.
+  revert c; induction pages as [|p pages IH]; intros c H; [constructor|].
+  cbn [set_slice_starts sum_lens fold_right] in *. fold (sum_lens pages) in H.
+  constructor; [cbn; lia|apply IH; lia].
+Qed.
+
+Lemma page_rows_length rows p : pc_slice_start p + pc_len p <= length rows -> length (page_rows rows p) = pc_len p.
+Proof. intro H. unfold page_rows. rewrite firstn_length, skipn_length. lia. Qed.
+
+(* the body part of a rendered page *)
+Lemma render_page_body ctx s pf cw rows pattrs p its :
+  render_page ctx s pf cw rows pattrs p = Ok its ->
+  exists pre bodyi post, its = pre ++ bodyi ++ post /\
+    (if nonempty (pc_bounds p) && spanning_enabled (s_body s)
+     then render_segments ctx s (pb_attrs (process_page s pattrs p (length (f_cols pf)))) cw (page_rows rows p) (pc_bounds p) 0
+                          (match pc_pbinfo p with Some gv => gv | None => [] end)
+     else table_encode ctx (pb_attrs (process_page s pattrs p (length (f_cols pf)))) cw (page_rows rows p) 0) = Ok bodyi.
+Proof.
+  unfold render_page. intro H. do 7 inv_bind H. inv_ok H.
+  match goal with
+  | |- exists pre bodyi post, ?a ++ ?b ++ ?c ++ ?d ++ ?e ++ ?f ++ ?g ++ ?h ++ ?i = _ /\ _ =>
+    exists (a ++ b ++ c ++ d ++ e ++ f), g, (h ++ i)
+  end.
+  split; [rewrite <- !app_assoc; reflexivity|exact E3].
+Qed.
+
+Theorem page_body_is_its_rows ctx s pf cw rows pattrs p its :
+  render_page ctx s pf cw rows pattrs p = Ok its ->
+  bounds_ok (length (page_rows rows p)) (pc_bounds p) ->
+  exists pre bodyi post data heads,
+    its = pre ++ bodyi ++ post /\ Shuffle data heads bodyi /\
+    table_encode ctx (pb_attrs (process_page s pattrs p (length (f_cols pf)))) cw (page_rows rows p) 0 = Ok data.
+Proof.
+  intros H [Hi Hf]. destruct (render_page_body _ _ _ _ _ _ _ _ H) as (pre & bodyi & post & Hits & Hb).
+  destruct (nonempty (pc_bounds p) && spanning_enabled (s_body s)).
+  - destruct (render_segments_rows _ _ _ _ _ _ _ _ _ (Nat.le_0_l _) Hi Hf Hb) as (data & heads & Hd & Hs).
+    exists pre, bodyi, post, data, heads. cbn [skipn] in Hd. repeat split; assumption.
+  - exists pre, bodyi, post, bodyi, []. repeat split; [exact Hits|apply shuffle_left|exact Hb].
+Qed.
+
+(* every page of a section (no group_by) satisfies the hypothesis: its boundaries lie inside its own slice *)
+Theorem section_pages_bounds s pf pattrs cw pages rows :
+  section_pages s = Ok (pf, pattrs, cw, pages, rows) -> no_group_by (s_body s) ->
+  Forall (fun p => bounds_ok (length (page_rows rows p)) (pc_bounds p)) pages.
+Proof.
+  intros H Hg. destruct (section_rows_partition _ _ _ _ _ _ H Hg) as (Hr & Hlen & _).
+  unfold section_pages, no_group_by in *.
+  pose proof (prepare_rows (s_frame s) (s_body s)) as Hp.
+  destruct (prepare (s_frame s) (s_body s)) as [[pf0 pattrs0] rem] eqn:Ep. cbn [fst] in Hp.
+  do 2 inv_bind H. unfold post_process in E0.
+  destruct (b_group_by (s_body s)) as [[|k ks]|]; try contradiction; inv_ok E0; inv_ok H.
+  all: pose proof (paginate_lens _ _ _ _ _ E) as Hl.
+  all: assert (Hb : Forall (fun p => bounds_ok (pc_len p) (pc_bounds p)) (match x with [] => [synthetic_page] | _ => x end))
+    by (destruct x as [|p0 ps]; [constructor; [split; [exact I|constructor]|constructor]|
+        unfold paginate in E; inv_bind E; inv_ok E; apply build_pages_bounds]).
+  all: assert (Hfit : Forall (fun p => pc_slice_start p + pc_len p <= length (f_rows pf))
+                             (set_slice_starts (match x with [] => [synthetic_page] | _ => x end) 0))
+    by (apply set_slice_starts_fit; destruct x as [|p0 ps]; [cbn; lia|rewrite Hl, Hp; cbn; lia]).
+  all: pose proof (set_slice_starts_bounds _ 0 Hb) as Hb2.
+  all: rewrite Forall_forall in *; intros p Hin; rewrite page_rows_length by (apply Hfit; exact Hin); apply Hb2; exact Hin.
+Qed.
